@@ -255,7 +255,8 @@ def c19_r5(ctx):
     for bi, s in wr:
         dnf = q.cond_of_block(facts, c, bi)
         ctx.inst('connect|to_remote', {'at': s['at'], 'conditions': show_dnf(dnf)})
-        ok = q.cond_has(dnf, lambda a: a[0] == 'cmp' and 'to.host_id' in (a[1] + a[2]) and a[3] == frozenset(['<', '>']))
+        to_p = q.param(c, 'Coord', 1)       # connect(from, to, ..): the second Coord is the destination
+        ok = q.cond_has(dnf, lambda a: a[0] == 'cmp' and (to_p + '.host_id') in (a[1] + a[2]) and a[3] == frozenset(['<', '>']))
         if not ok:
             ctx.viol('%s|to-remote-guard' % c.path, s['at'],
                      'to_remote is set on a path not guarded by "destination host != this host" (conditions: %s)' % show_dnf(dnf), None)
